@@ -199,9 +199,14 @@ func (p *C08) Generate(seed uint64, run int) *Case {
 		st2 := st
 		st2.Argv = append(append([]string{}, argv...), "-o", outPath)
 		st2.Note = "outfile"
-		if r.Chance(1, 2) {
+		switch r.Intn(4) {
+		case 0, 1:
 			st2.Files = nil
 			withExistingOutput(r, &st2)
+		case 2:
+			st2.Files = map[string]*simrt.FileSpec{outPath: {RenameErr: "EXDEV"}}
+		case 3:
+			st2.Files = map[string]*simrt.FileSpec{outPath: {Pipe: true}}
 		}
 		c.Steps = append(c.Steps, st2)
 	}
